@@ -33,6 +33,41 @@ func (c *RealCase) ID() string {
 	return fmt.Sprintf("loader=%s ref=%s referrer=%s name=%q", c.Loader, c.Ref, c.Referrer, c.Name)
 }
 
+// chunkFS serves the files of a MapFS in short reads.
+type chunkFS struct{ inner fstest.MapFS }
+
+func (c chunkFS) Open(name string) (fs.File, error) {
+	f, err := c.inner.Open(name)
+	if err != nil {
+		return nil, err
+	}
+	return &chunkFile{f}, nil
+}
+
+type chunkFile struct{ fs.File }
+
+func (f *chunkFile) Read(p []byte) (int, error) {
+	if len(p) > 5 {
+		p = p[:5]
+	}
+	return f.File.Read(p)
+}
+
+// http.FS needs Seek/Readdir of the wrapped file where it has them
+func (f *chunkFile) Seek(offset int64, whence int) (int64, error) {
+	if s, ok := f.File.(io.Seeker); ok {
+		return s.Seek(offset, whence)
+	}
+	return 0, fmt.Errorf("chunkFile: no Seek")
+}
+
+func (f *chunkFile) ReadDir(n int) ([]fs.DirEntry, error) {
+	if d, ok := f.File.(fs.ReadDirFile); ok {
+		return d.ReadDir(n)
+	}
+	return nil, fmt.Errorf("chunkFile: not a directory")
+}
+
 type recLoader struct {
 	inner pongo2.TemplateLoader
 	gets  []string
@@ -162,13 +197,15 @@ func (c *RealCase) Exec(t *eng.T) {
 			}
 			m[p] = &fstest.MapFile{Data: []byte(s)}
 		}
+		// the files deliver their content in pieces of at most 5 bytes (a Read may return less than asked for)
+		cm := chunkFS{m}
 		switch c.Loader {
 		case "fs":
-			inner = pongo2.NewFSLoader(m)
+			inner = pongo2.NewFSLoader(cm)
 		case "http":
-			inner = pongo2.MustNewHttpFileSystemLoader(http.FS(m), "")
+			inner = pongo2.MustNewHttpFileSystemLoader(http.FS(cm), "")
 		case "http-base":
-			inner = pongo2.MustNewHttpFileSystemLoader(http.FS(m), "/tpls")
+			inner = pongo2.MustNewHttpFileSystemLoader(http.FS(cm), "/tpls")
 		}
 	default:
 		top, err := os.MkdirTemp("", "verif-c11-")
@@ -283,6 +320,9 @@ func (c *TwoDirCase) Exec(t *eng.T) {
 	defer os.RemoveAll(a)
 	defer os.RemoveAll(b)
 	rc := &RealCase{Ref: c.Ref, Name: "only_b.tpl"}
+	if c.Ref == "fromcache" {
+		rc.Ref = "include"
+	}
 	target := "T<only_b>"
 	switch c.Ref {
 	case "extends":
@@ -299,11 +339,21 @@ func (c *TwoDirCase) Exec(t *eng.T) {
 		return
 	}
 	tpl, out := px.CompileFile(set, "main.tpl")
+	if c.Ref == "fromcache" {
+		// no referring template at all: the set's own cache asked for the name
+		var ct *pongo2.Template
+		var cerr error
+		if ct, cerr = set.FromCache("only_b.tpl"); cerr != nil {
+			tpl, out = nil, px.Out{Err: cerr.Error(), Compile: true}
+		} else {
+			tpl = ct
+		}
+	}
 	if tpl != nil {
 		out = px.Exec(tpl, pongo2.Context{"name": "only_b.tpl"})
 	}
 	t.Outcome(out.Kind())
-	want := map[string]string{"include": "[T<only_b>]", "include-lazy": "[T<only_b>]", "extends": "B<only_b>child", "import": "[M<only_b>]", "ssi": "[T<only_b>]", "ssi-parsed": "[T<only_b>]"}[c.Ref]
+	want := map[string]string{"include": "[T<only_b>]", "include-lazy": "[T<only_b>]", "extends": "B<only_b>child", "import": "[M<only_b>]", "ssi": "[T<only_b>]", "ssi-parsed": "[T<only_b>]", "fromcache": "T<only_b>"}[c.Ref]
 	if out.Failed() || out.S != want {
 		t.Fail("loader:later-loader-unreachable:"+c.Ref, "%s: the set loads only_b.tpl when asked directly (FromFile), but main.tpl (first directory) referring to it renders %s, want %q", c.ID(), out, want)
 	}
@@ -311,7 +361,7 @@ func (c *TwoDirCase) Exec(t *eng.T) {
 
 func runReal(r *eng.Runner) {
 	r.Group("two-base-directories", "c11.twodirs", "two LocalFilesystemLoaders with different base directories in one set: a template of the first refers by a plain name to a file only the second has, through each of the 6 reference kinds")
-	for _, ref := range []string{"include", "include-lazy", "extends", "import", "ssi", "ssi-parsed"} {
+	for _, ref := range []string{"include", "include-lazy", "extends", "import", "ssi", "ssi-parsed", "fromcache"} {
 		r.Do(&TwoDirCase{Ref: ref})
 	}
 	r.Group("real-loaders", "c11.real", "pongo2's own loaders (FSLoader and HttpFilesystemLoader with and without base directory over an in-memory fs, LocalFilesystemLoader with and without base directory and SandboxedFilesystemLoader over a scratch directory) behind a recording wrapper: 6 reference kinds x 2 referrer locations x 9 written names (plain, ./, sub directory, ../, detours, rooted, missing) with a second relative hop from the target; resolution rule per loader as documented in template_loader.go")
